@@ -226,29 +226,51 @@ static sqf::runtime::runtime::result execute_do(sqf::runtime::runtime& runtime, 
         {
             auto log_messages = runtime.log_messages;
             runtime.log_messages.clear();
+            // frames (and with them the instruction) may be gone once handlers have been tried
+            auto error_diag_info = (*instruction)->diag_info();
             // Build Stacktrace
             std::vector<sqf::runtime::frame> stacktrace_frames(context_active.frames_rbegin(), context_active.frames_rend());
             sqf::runtime::diagnostics::stacktrace stacktrace(stacktrace_frames);
 
-            // Try to find a frame that has recover behavior for runtime error
-            auto res = std::find_if(context_active.frames_rbegin(), context_active.frames_rend(),
-                [](sqf::runtime::frame& frame) -> bool { return frame.can_recover_runtime_error(); });
-
-            if (res != context_active.frames_rend())
-            { // We found a recoverable frame
-                stacktrace.value = std::make_shared<sqf::types::d_array>(log_messages.begin(), log_messages.end());
-                // Push Stacktrace to value-stack
-                context_active.push_value({ std::make_shared<sqf::types::d_stacktrace>(stacktrace) });
-
+            // Try to find a frame that has recover behavior for runtime error.
+            // A frame may decline (try/catch only takes what was thrown at it): it is left like every other frame
+            // on the way and the search goes on further out, so that the error is never dropped silently.
+            bool recovered = false;
+            stacktrace.value = std::make_shared<sqf::types::d_array>(log_messages.begin(), log_messages.end());
+            while (true)
+            {
+                auto res = std::find_if(context_active.frames_rbegin(), context_active.frames_rend(),
+                    [](sqf::runtime::frame& frame) -> bool { return frame.can_recover_runtime_error(); });
+                if (res == context_active.frames_rend())
+                {
+                    break;
+                }
                 // Pop all frames between result and current_frame
                 size_t frames_to_pop = res - context_active.frames_rbegin();
                 for (size_t i = 0; i < frames_to_pop; i++)
                 {
+                    context_active.clear_values();
                     context_active.pop_frame();
                 }
+                // Push Stacktrace to value-stack
+                context_active.push_value({ std::make_shared<sqf::types::d_stacktrace>(stacktrace) });
 
                 // Recover from exception
-                context_active.current_frame().recover_runtime_error(runtime);
+                if (context_active.current_frame().recover_runtime_error(runtime) != sqf::runtime::frame::result::error)
+                {
+                    recovered = true;
+                    break;
+                }
+                context_active.clear_values();
+                context_active.pop_frame();
+                if (context_active.empty())
+                {
+                    break;
+                }
+            }
+
+            if (recovered)
+            {
                 runtime_error = false;
             }
             else
@@ -259,7 +281,7 @@ static sqf::runtime::runtime::result execute_do(sqf::runtime::runtime& runtime, 
                     "        " <<
                     "    " << "\x1B[36mEXIT execute_do\033[0m as runtime error occured" << std::endl;
 #endif // DF__SQF_RUNTIME__ASSEMBLY_DEBUG_ON_EXECUTE
-                runtime.__logmsg(logmessage::runtime::Stacktrace((*instruction)->diag_info(), stacktrace));
+                runtime.__logmsg(logmessage::runtime::Stacktrace(error_diag_info, stacktrace));
                 runtime_error = false;
                 return sqf::runtime::runtime::result::runtime_error;
             }
